@@ -4,8 +4,9 @@ History = optional bulk initial entries + list of operations over a small
 name/address domain (with '' and None).  After every operation:
   * addrByName and nameByAddr are exact inverses (bijection invariant);
   * an operation that raised NamerError or returned False left both unchanged;
-  * the return value / raise and the resulting mapping equal a dict model
-    written from the docstrings;
+  * whether the operation took effect (True) or not (False / NamerError, taken as
+    one class) and the resulting mapping equal a dict model written from the
+    docstrings;
   * getAddr/getName/countNameAddr agree with the mappings.
 """
 from hypothesis import strategies as st
@@ -201,7 +202,10 @@ def run_case(case):
                 return r
             if size_before >= 2:
                 rejected_with_two = True
-        if got != exp:
+        # The statement distinguishes an operation that takes effect from one that "is rejected or reports no change";
+        # WHICH of the two non-effect outcomes (False or NamerError) an implementation picks for a given input is not part
+        # of it, so they are compared as one class.  (clear returns nothing.)
+        if kind != "clear" and (got is True) != (exp is True):
             r.fail("C27/return-model", "step %d %r returned %r, model %r (state %r)" % (i, op, got, exp, before_a))
             return r
         if got is True and kind in ("chaddr", "chname"):
